@@ -145,6 +145,14 @@ def gen(seed, thorough=False):
                                                'stream': rng.choice(['realstderr', 'realstderr',
                                                                      'stdout', 'stderr']),
                                                'text': text}))
+        elif k < 0.88:
+            # something writes to the child's fd 2 AFTER the report (atexit handler, interpreter
+            # shutdown warnings), with or without a trailing newline
+            plan.append({'site': 'channel', 'ident': lf, 'a': 'noise', 'stream': 'E',
+                         'pos': 0, 'after_report': True,
+                         'text': rng.choice(['bye', 'Exception ignored in: <x>\n', '\n',
+                                             'sys:1: ResourceWarning: unclosed file\n', '0 0',
+                                             'trailing junk \xe9'])})
         elif k < 0.92:
             plan.append({'site': 'channel', 'ident': lf, 'a': 'eintr',
                          'nth': rng.randint(1, 12)})
